@@ -444,6 +444,247 @@ def run_c19(ctx):
     write_evidence(ctx, level, cov, ["thread interleavings actually exercised are whatever the OS scheduler produced"])
     return 1 if ctx.violations else 0
 PROPS["C19"] = (run_c19, lambda ctx, path: run_c19(ctx))
+
+# ------------------------------------------------------------------ C14 (utf16) and C15 (feature matrix)
+def exec_results(feat, seed, npat, nhay, budget, drv_env=""):
+    """Run the exec stream of one feature build; returns (results dict, driver summary, mismatches, compile list)."""
+    hb, db = harness_bin(feat), os.path.join(BUILD, "extract", "driver")
+    d = os.path.join(BUILD, "tmp"); os.makedirs(d, exist_ok=True)
+    f = os.path.join(d, "exec_%s_%d.txt" % (feat, os.getpid()))
+    rc, out = sh("%s exec %d %d %d %d > %s" % (hb, seed, npat, nhay, budget, f), 900)
+    res, compiled = {}, []
+    cid = hay = None
+    for line in open(f):
+        t = line.split()
+        if not t: continue
+        if t[0] == "C": cid = t[1]; compiled.append((t[1], t[2], t[3]))
+        elif t[0] == "H": hay = (t[1], t[2])
+        elif t[0] == "R": res[(cid, hay, t[1])] = (t[2], " ".join(t[4:]))
+        elif t[0] == "X": res[(cid, None, "compile")] = ("panic", "")
+    rc2, out2 = sh("%s %s exec %d < %s" % (drv_env, db, budget, f), 900)
+    os.remove(f)
+    summ, mism = {}, []
+    for line in out2.split("\n"):
+        if line.startswith("SUMMARY"): summ = {k: int(v) for k, v in parse_kv(line).items()}
+        elif line.startswith("MISMATCH"): mism.append(line)
+    return res, summ, mism, compiled, (rc, rc2)
+
+FEATS = ["default", "index-positions", "prohibit-unsafe", "both", "utf16", "nostd"]
+
+def run_c15(ctx):
+    fr = front(ctx)
+    broken = list(fr["broken"])
+    for ft in FEATS[1:]:
+        rc, out = build_harness(ft)
+        if rc != 0: broken.append("HARNESS-BUILD-FAILED (%s): %s" % (ft, out[-300:]))
+    npat = 700 if ctx.tier == "quick" else 20000
+    summary, mism_all, diffs = {}, [], []
+    if not any("-BUILD-FAILED" in b for b in broken):
+        with concurrent.futures.ThreadPoolExecutor(max_workers=6) as ex:
+            futs = {ft: ex.submit(exec_results, ft, ctx.seed * 1000, npat, 5, BUDGET, "RV_UTF16=1" if ft == "utf16" else "") for ft in FEATS}
+            R = {ft: fu.result() for ft, fu in futs.items()}
+        base, bsum, bm, bcomp, _ = R["default"]
+        for ft in FEATS:
+            res, summ, mism, comp, rcs = R[ft]
+            if rcs != (0, 0): broken.append("pipeline (%s): rc=%s" % (ft, rcs))
+            for k, v in summ.items(): summary[k] = summary.get(k, 0) + v
+            if mism: broken.append("correspondence (%s build): %d disagreements, first: %s" % (ft, len(mism), mism[0][:200]))
+            if ft == "default": continue
+            if [c[0] for c in comp] != [c[0] for c in bcomp]:
+                diffs.append((ft, "set-of-patterns-that-compile-differs", None))
+            for k, v in res.items():
+                b = base.get(k)
+                # steps are not compared (the utf16 build has no prefilter and no byte literals); results must be identical
+                if b is not None and b != v and "budget" not in (b[0], v[0]):
+                    diffs.append((ft, k, (b, v)))
+    ctx.note("feature matrix: %s result differences=%d" % (summary, len(diffs)))
+    reported = 0
+    cases = {}
+    for ft, k, bv in diffs:
+        if k == "set-of-patterns-that-compile-differs" or reported >= 3: continue
+        cid = k[0]
+        pat = next((c for c in R["default"][3] if c[0] == cid), None)
+        path = write_replay(ctx, "input", dict(kind="failing-input", stream="exec-feature-matrix", feature_set=ft, case=cid,
+                                               pattern=decode_pat(pat[1]) if pat else None, pattern_hex=pat[1] if pat else None, flags=pat[2] if pat else None,
+                                               haystack_hex=k[1][0] if k[1] else None, start=k[1][1] if k[1] else None, engine=k[2],
+                                               detail="default=%s / %s=%s" % (bv[0], ft, bv[1])))
+        report_violation(ctx, path); reported += 1
+    if diffs and reported == 0: broken.append("feature matrix: %s" % str(diffs[0])[:300])
+    if broken and reported == 0:
+        path = write_replay(ctx, "tie", dict(kind="broken-obligation", broken=broken, note="a feature build or its correspondence no longer checks; no differing result was observed"))
+        report_violation(ctx, path, no_input=True)
+    nth = len(fr["theorems"])
+    cov = dict(programs=max(summary.get("cases", 0), 1), disagreements_checked=len(diffs), evaluations=summary.get("runs", 0), distinct_nontrivial=summary.get("nontrivial", 0),
+               rule="one deterministic case stream (shape family + %d generated patterns x 5 haystacks) replayed through six builds of the harness (default, index-positions, prohibit-unsafe, both, utf16, no-std+alloc); every (case, haystack, start, engine) result compared with the default build; each build also compared with the model (utf16 build in utf16 model configuration)" % npat,
+               samples=[dict(feature_sets=FEATS)], obligations=max(nth, 1), discharged=fr["discharged"] if nth else 0,
+               checker_cmd="cargo build x6 feature sets; rvharness exec | driver exec per build; pairwise result comparison", trusted_base=TRUSTED_BASE)
+    write_evidence(ctx, "translation_validation", cov, ["pointer vs index positions, checked vs unchecked access, std vs alloc do not exist in the model: they are compared build against build"])
+    return 1 if ctx.violations else 0
+PROPS["C15"] = (run_c15, lambda ctx, path: run_c15(ctx))
+
+def run_c14(ctx):
+    fr = front(ctx)
+    broken = list(fr["broken"])
+    rc, out = build_harness("utf16")
+    if rc != 0: broken.append("HARNESS-BUILD-FAILED (utf16): " + out[-300:])
+    summary, pv, mism = {}, [], []
+    if not any("-BUILD-FAILED" in b for b in broken):
+        shards, n = (8, 600) if ctx.tier == "quick" else (16, 20000)
+        cmds = ["%s utf16 %d %d" % (harness_bin("utf16"), ctx.seed * 1000 + k, n) for k in range(shards)]
+        with concurrent.futures.ThreadPoolExecutor(max_workers=NCPU) as ex:
+            for rc, out in ex.map(lambda c: sh(c, 900), cmds):
+                if rc != 0: broken.append("pipeline: utf16 harness rc=%d %s" % (rc, out[-300:]))
+                for line in out.split("\n"):
+                    if line.startswith("SUMMARY"):
+                        for k, v in parse_kv(line).items(): summary[k] = summary.get(k, 0) + int(v)
+                    elif line.startswith("PROPVIOL"): pv.append(line)
+        # model tie of the utf16 build (no byte literals, no prefilter in the backtracker)
+        res, summ, mism, comp, rcs = exec_results("utf16", ctx.seed * 1000, 500 if ctx.tier == "quick" else 10000, 5, BUDGET, "RV_UTF16=1")
+        if mism: broken.append("correspondence (utf16 build): %d disagreements, first: %s" % (len(mism), mism[0][:200]))
+        summary["model_runs"] = summ.get("runs", 0)
+    ctx.note("utf16: %s propviol=%d mismatches=%d" % (summary, len(pv), len(mism)))
+    reported = 0
+    seen = set()
+    for l in sorted(pv, key=len):
+        c = pv_case(l)
+        cls = viol_class(c["detail"])
+        if cls in seen or reported >= 3: continue
+        seen.add(cls)
+        path = write_replay(ctx, "input", dict(kind="failing-input", stream="utf16", flags=c["flags"], pattern=c["pat"], pattern_hex=encode_pat(c["pat"]),
+                                               haystack_hex=c["hay"].hex(), start=c["start"], detail=c["detail"]))
+        report_violation(ctx, path); reported += 1
+    if broken and reported == 0:
+        path = write_replay(ctx, "tie", dict(kind="broken-obligation", broken=broken, note="the utf16 build or its correspondence no longer checks; no violating input was found"))
+        report_violation(ctx, path, no_input=True)
+    cov = dict(programs=max(summary.get("cases", 0), 1), disagreements_checked=len(mism), evaluations=summary.get("runs", 0), distinct_nontrivial=summary.get("nontrivial", 0),
+               rule="generated patterns x texts: find_from on the string vs find_from_utf16 on its UTF-16 encoding (offsets translated, every boundary start), UCS-2 on BMP-only text, and arbitrary u16 slices with lone surrogates (no panic, ranges inside the slice); plus the S2-S5 model correspondence of the utf16 build",
+               samples=[dict(note="see rule"), dict(inconclusive=summary.get("inconclusive", 0))], obligations=1, discharged=0,
+               checker_cmd="cargo build --features utf16; rvharness utf16; rvharness exec | RV_UTF16=1 driver exec", trusted_base=TRUSTED_BASE)
+    write_evidence(ctx, "translation_validation", cov, ["the Utf16Input/Ucs2Input indexers are not modelled in Coq; this check evaluates the property on the implementation"])
+    return 1 if ctx.violations else 0
+PROPS["C14"] = (run_c14, lambda ctx, path: run_c14(ctx))
+
+# ------------------------------------------------------------------ C07 (compilation is total)
+def run_c07(ctx):
+    fr = front(ctx)
+    broken = list(fr["broken"])
+    known = load_known()
+    hb = harness_bin()
+    results, viols = [], []
+    fuzz = {"ok": 0, "err": 0, "PANIC": 0}
+    if not any("-BUILD-FAILED" in b for b in broken):
+        rc, out = sh("%s advlist" % hb, 60)
+        advs = [l.split() for l in out.strip().split("\n") if l.strip()]
+        if ctx.tier == "quick":
+            # quadratic-but-terminating giants (65535+ *named* groups take ~70 s each) run in the thorough tier only
+            advs = [a for a in advs if not re.match(r"many-named-groups-(6|7)\d{4}", a[1])]
+        def one(a):
+            k, name = a[0], a[1]
+            rc, out = sh("ulimit -s 8192; timeout 200 %s adv %s" % (hb, k), 230)
+            m = re.search(r"END \d+ \S+ (\S+) (\d+)ms", out)
+            if m: return (name, m.group(1), int(m.group(2)), a[2], a[3])
+            if "stack overflow" in out: return (name, "STACK-OVERFLOW", 0, a[2], a[3])
+            if rc == 124: return (name, "TIMEOUT", 200000, a[2], a[3])
+            return (name, "ABORT(rc=%d)" % rc, 0, a[2], a[3])
+        with concurrent.futures.ThreadPoolExecutor(max_workers=NCPU) as ex:
+            results = list(ex.map(one, advs))
+        for name, res, ms, ln, fl in results:
+            if res not in ("ok", "err"): viols.append((name, res, ln, fl))
+        # token-level stream (in-process; a dying process is itself a finding)
+        shards, n = (8, 4000) if ctx.tier == "quick" else (16, 200000)
+        cmds = ["%s advfuzz %d %d" % (hb, ctx.seed * 1000 + k, n) for k in range(shards)]
+        with concurrent.futures.ThreadPoolExecutor(max_workers=NCPU) as ex:
+            for rc, out in ex.map(lambda c: sh(c, 900), cmds):
+                lines = [l.split() for l in out.split("\n") if l.startswith("Z ")]
+                for t in lines:
+                    fuzz[t[4]] = fuzz.get(t[4], 0) + 1
+                    if t[4] == "PANIC": viols.append(("token-stream:" + t[2] + "/" + t[3], "PANIC", len(t[2].split(",")), t[3]))
+                if rc != 0:
+                    last = lines[-1] if lines else ["?"] * 5
+                    viols.append(("token-stream-process-died-after:" + last[2], "ABORT(rc=%d)" % rc, 0, last[3]))
+    ctx.note("adversaries: %d run, outcomes %s; token stream %s" % (len(results), {r: sum(1 for x in results if x[1] == r) for r in set(x[1] for x in results)}, fuzz))
+    reported = 0
+    for name, res, ln, fl in viols:
+        base = name.split("-")[0] + "-" + res
+        kf = next((k for k in known if k["property"] == "C07" and k["key"] and name.startswith(k["key"].split(":", 1)[-1]) and res in k["what"]), None)
+        if kf:
+            msg = "KNOWN-FINDING: property=C07 %s" % kf["what"]
+            if msg not in ctx.known: ctx.known.append(msg); print(msg, flush=True)
+            continue
+        if reported >= 4: continue
+        path = write_replay(ctx, "input", dict(kind="failing-input", stream="adv", adversary=name, outcome=res, pattern_length=ln, flags=fl,
+                                               rerun="build/target-default/release/rvharness advlist | grep ' %s ' ; rvharness adv <k>" % name))
+        report_violation(ctx, path); reported += 1
+    if broken and reported == 0:
+        path = write_replay(ctx, "tie", dict(kind="broken-obligation", broken=broken, note="no crashing input found"))
+        report_violation(ctx, path, no_input=True)
+    nth = len(fr["theorems"])
+    cov = dict(evaluations=len(results) + sum(fuzz.values()), distinct_nontrivial=len(results) + fuzz.get("ok", 0), programs=len(results) + sum(fuzz.values()), disagreements_checked=0,
+               rule="203 size/shape adversaries (alternations up to 3*10^5, nesting up to 10^5, 65535/65536/70000 groups and loops, 20-digit counts, unterminated constructs, raw surrogates), each in its own process under an 8 MiB stack and a 30 s limit; plus token-level random strings in-process; non-trivial = adversaries + accepted token strings",
+               samples=[dict(name=x[0], outcome=x[1], ms=x[2]) for x in results[:6]], obligations=max(nth, 1), discharged=fr["discharged"] if nth else 0,
+               checker_cmd="rvharness adv <k> (one process per adversary); rvharness advfuzz", trusted_base=TRUSTED_BASE)
+    write_evidence(ctx, "proof" if nth and fr["discharged"] == nth and not broken else "exploration", cov, ["real stack and heap consumption are runtime facts; the models carry panic sites as explicit outcomes"])
+    return 1 if ctx.violations else 0
+PROPS["C07"] = (run_c07, lambda ctx, path: run_c07(ctx))
+
+# ------------------------------------------------------------------ C08 (accepted language)
+def run_c08(ctx):
+    fr = front(ctx)
+    broken = list(fr["broken"])
+    known = load_known()
+    hb = harness_bin()
+    dis, summ, rej = [], {"compared": 0, "skipped": 0}, []
+    if not any("-BUILD-FAILED" in b for b in broken):
+        shards, n = (8, 6000) if ctx.tier == "quick" else (16, 300000)
+        cmds = ["set -o pipefail; %s advfuzz %d %d | node %s/ref/v8_syntax.js" % (hb, ctx.seed * 1000 + k, n, V) for k in range(shards)]
+        with concurrent.futures.ThreadPoolExecutor(max_workers=NCPU) as ex:
+            for rc, out in ex.map(lambda c: sh(c, 900), cmds):
+                if rc != 0: broken.append("pipeline: advfuzz|node rc=%d %s" % (rc, out[-200:]))
+                for line in out.split("\n"):
+                    t = line.split()
+                    if t and t[0] == "D": dis.append(t)
+                    elif t and t[0] == "SUMMARY":
+                        for k, v in parse_kv(line).items(): summ[k] = summ.get(k, 0) + int(v)
+        # valid patterns (printed from generated syntax trees, incl. modifiers and duplicate names) that regress rejects
+        s2, m2, pv2, e2 = run_stream_shards("spec", "spec", ctx.seed, 8, 1500 if ctx.tier == "quick" else 30000, extra="1")
+        rej = [pv_case(l) for l in pv2 if parse_kv(l).get("prop") == "C08"]
+        summ["generated_valid_patterns"] = s2.get("cases", 0) + len(rej)
+    ctx.note("syntax vs V8: %s disagreements=%d; generated valid patterns rejected=%d" % (summ, len(dis), len(rej)))
+    # classify disagreements by a normalised shape so that one replay per class is written
+    def shape(t):
+        pat = decode_pat(t[2])
+        cls = re.sub(r"[a-z0-9é]", "a", pat)[:40]
+        return "%s/%s:%s" % (t[4], t[5], cls)
+    classes = {}
+    for t in sorted(dis, key=lambda t: len(t[2])):
+        classes.setdefault(shape(t), t)
+    reported = 0
+    for cls, t in classes.items():
+        pat = decode_pat(t[2])
+        kf = None
+        for k in known:
+            if k["property"] == "C08" and k["key"] and k["key"].startswith("regex:") and re.search(k["key"][6:], pat): kf = k
+        if kf:
+            msg = "KNOWN-FINDING: property=C08 %s" % kf["what"]
+            if msg not in ctx.known: ctx.known.append(msg); print(msg, flush=True)
+            continue
+        if reported >= 4: continue
+        path = write_replay(ctx, "input", dict(kind="failing-input", stream="advfuzz|v8", pattern=pat, pattern_hex=t[2], flags=t[3], detail="%s %s" % (t[4], t[5])))
+        report_violation(ctx, path); reported += 1
+    for c in rej[:2]:
+        if reported >= 4: break
+        path = write_replay(ctx, "input", dict(kind="failing-input", stream="spec", pattern=c["pat"], flags=c["flags"], detail="valid pattern (printed from a generated syntax tree) rejected"))
+        report_violation(ctx, path); reported += 1
+    if broken and reported == 0:
+        path = write_replay(ctx, "tie", dict(kind="broken-obligation", broken=broken, note="no accept/reject disagreement found"))
+        report_violation(ctx, path, no_input=True)
+    cov = dict(evaluations=summ.get("compared", 0) + summ.get("generated_valid_patterns", 0), distinct_nontrivial=summ.get("compared", 0), programs=max(summ.get("compared", 0), 1), disagreements_checked=len(dis),
+               rule="token-level random strings (80 syntax tokens, raw surrogates injected) under 8 flag sets: Regex::from_unicode accept/reject vs V8 (node 20, ICU 78); strings using constructs this V8 lacks (inline modifiers, duplicate names) are skipped and covered instead by generated syntax trees that must all be accepted",
+               samples=[dict(pattern=decode_pat(t[2]), flags=t[3], verdicts=t[4:6]) for t in list(classes.values())[:4]] or [dict(note="no disagreement")],
+               obligations=1, discharged=0, checker_cmd="rvharness advfuzz | node ref/v8_syntax.js; rvharness spec | driver spec", trusted_base=TRUSTED_BASE + ["V8 (node 20.20) as the accept/reject oracle"])
+    write_evidence(ctx, "exploration", cov, ["no Gallina model of the parser yet: this check is differential testing against V8, not a proof"])
+    return 1 if ctx.violations else 0
+PROPS["C08"] = (run_c08, lambda ctx, path: run_c08(ctx))
 for _p in API_PROPS: PROPS[_p] = (run_api, replay_api)
 
 def run(ctx):
